@@ -224,6 +224,8 @@ def run(pid, tier):
                        ["continue"], MC_INV["C10"], False, "Sampling.tla/continue")
     rep.cov["exhaustive"] = True
     rep.cov["behaviours_generated"] = len(behs)
+    behs_all = list(behs)
+    rng.shuffle(behs_all)
     cap = 2500 if tier == "quick" else 40000
     if len(behs) > cap:
         rng.shuffle(behs)
@@ -269,6 +271,11 @@ def run(pid, tier):
         rep.clause_count("event", not [c for c in rejects.get(r["tid"], []) if belongs(pid, c)])
     rep.sample(bywalk[recs[0]["walk"]])
     rep.sample(bywalk[recs[-1]["walk"]])
+    if pid == "C10":
+        # the documented workflow end to end (phantoms -> assertions -> margins -> rounds of sampling, lookup, data,
+        # p-values, status), one event per call, validated against the composed specification
+        from . import audit_run
+        audit_run.audit_run_part(rep, tier, rng, behs_all)
     rep.assumptions += ["sample numbers are injected (256-bit integers increasing with the TLC-chosen rank); list positions "
                         "are a seeded permutation of the rank order",
                         "each card's manual record carries a value that identifies the card, so the data handed to a test "
